@@ -17,7 +17,7 @@ struct UField {
     expr: Option<(&'static str, &'static str)>,
 }
 
-const UFIELDS: [UField; 12] = [
+const UFIELDS: [UField; 15] = [
     UField { ty: "u8", size: 1, align: 1, default: true, expr: Some(("7", "7u8")) },
     UField { ty: "[u8; 3]", size: 3, align: 1, default: true, expr: None },
     UField { ty: "u16", size: 2, align: 2, default: true, expr: Some(("b'x'", "120u16")) },
@@ -30,7 +30,12 @@ const UFIELDS: [UField; 12] = [
     UField { ty: "i8", size: 1, align: 1, default: true, expr: Some(("-1", "-1i8")) },
     UField { ty: "u64", size: 8, align: 8, default: true, expr: Some(("0 + 1", "1u64")) },
     UField { ty: "[u8; 5]", size: 5, align: 1, default: true, expr: None },
+    // zero-sized fields: a union made only of these has no bytes at all
+    UField { ty: "()", size: 0, align: 1, default: true, expr: None },
+    UField { ty: "[u8; 0]", size: 0, align: 1, default: true, expr: None },
+    UField { ty: "[u32; 0]", size: 0, align: 4, default: true, expr: None },
 ];
+const FIRST_ZST: usize = 12;
 
 pub struct UCase {
     pub def: String,
@@ -47,6 +52,12 @@ pub fn build(dna: &[u16]) -> UCase {
     let mut idx: Vec<usize> = Vec::new();
     for _ in 0..nf {
         idx.push(d.pick(UFIELDS.len()));
+    }
+    // zero-sized unions are a class of their own
+    if d.chance(7) {
+        for i in idx.iter_mut() {
+            *i = FIRST_ZST + d.pick(UFIELDS.len() - FIRST_ZST);
+        }
     }
     // no padding: the union's size must equal the size of its largest field
     loop {
@@ -157,11 +168,17 @@ pub fn build(dna: &[u16]) -> UCase {
                 fields_src.push_str("    #[educe(Default)]\n");
             }
         }
-        let ty = if generic && f.ty == "u32" { "T" } else { f.ty };
+        let ty = if generic && f.ty == "u32" {
+            "T"
+        } else if generic && f.ty == "[u32; 0]" {
+            "[T; 0]"
+        } else {
+            f.ty
+        };
         fields_src.push_str(&format!("    {}: {},\n", names[k], ty));
     }
     // a generic parameter must be used
-    let uses_t = generic && idx.iter().any(|i| UFIELDS[*i].ty == "u32");
+    let uses_t = generic && idx.iter().any(|i| UFIELDS[*i].ty == "u32" || UFIELDS[*i].ty == "[u32; 0]");
     let (gen_decl, gen_inst) = if generic && !uses_t { ("", "") } else { (gen_decl, gen_inst) };
     let body_def = format!("pub union {tname}{gen_decl} {{\n{fields_src}}}\n");
     def.push_str(&body_def);
@@ -250,7 +267,10 @@ pub fn build(dna: &[u16]) -> UCase {
     if name_mode == 2 {
         classes.push("name_custom".into());
     }
-    UCase { def, body, without_unsafe, nontrivial: sizes_differ && first_size < size, classes }
+    if size == 0 {
+        classes.push("zero_sized".into());
+    }
+    UCase { def, body, without_unsafe, nontrivial: (sizes_differ && first_size < size) || size == 0, classes }
 }
 
 pub fn run(ctx: &Ctx) -> i32 {
@@ -259,12 +279,12 @@ pub fn run(ctx: &Ctx) -> i32 {
     }
     let mut rep = Report::new(
         ctx,
-        "unions with 1..5 fields over sizes 1..16 and alignments 1..8 (arrays, integers, floats, a generic T: Copy) whose largest field covers every byte, \
+        "unions with 1..5 fields over sizes 0..16 (zero-sized unions included) and alignments 1..8 (arrays, integers, floats, a generic T: Copy) whose largest field covers every byte, \
          name default/false/custom, trait sets within {Debug, PartialEq, Eq, Hash, Clone, Copy, Default}; values are built by copying byte patterns \
          (all-zero, all-FF, a single differing byte at every offset, two mixed patterns) into zeroed storage; oracle: Debug equals debug_tuple(name).field(&bytes) \
          or Debug for [u8] in both formats, == iff the size_of::<Self>() bytes are equal, the recording hasher sees exactly Hash::hash(&bytes[..]), clone is \
          byte-identical and the type is Copy, default() holds the designated field's expression or default; every definition with `unsafe` removed or not \
-         first must be refused in-process; non-trivial = fields of different sizes with the first field smaller than the union; distinct by definition hash",
+         first must be refused in-process; non-trivial = fields of different sizes with the first field smaller than the union, or a zero-sized union; distinct by definition hash",
     );
     rep.assumptions.push("all size_of::<Self>() bytes are initialised, which is the documented contract of these impls".into());
     let so = match engine::build_proc_macro() {
